@@ -47,7 +47,7 @@ def programs_and_behaviours(ctx, n_random: int, seed: int, tag: str, families: b
 
 
 def run_mode(mode: str, ppath, bpath, tag: str, versions=None, shards: int = 4, timeout: int = 1800,
-             stride: int = 1) -> Dict[str, dict]:
+             stride: int = 1, seed_offset: int = 0) -> Dict[str, dict]:
     """stride > 1: only every stride-th behaviour is replayed (quick tiers of the expensive modes)"""
     interps = available_interpreters(versions or ("3.12", "3.11", "3.10", "3.9"))
     jobs = [(v, py, i) for v, py in interps.items() for i in range(shards)]
@@ -56,7 +56,7 @@ def run_mode(mode: str, ppath, bpath, tag: str, versions=None, shards: int = 4, 
         v, py, i = job
         opath = D / f"{tag}_{mode}_{v}_{i}.json"
         p, _ = run([py, str(VERIF / "harness/drivers/runner_min.py"), str(ppath), str(bpath), str(opath), mode,
-                    "shard", str(i * stride), str(shards * stride)], timeout=timeout, env=child_env(v))
+                    "shard", str(i * stride + (seed_offset % stride)), str(shards * stride)], timeout=timeout, env=child_env(v))
         if p.returncode != 0:
             raise MachineryError(f"runner ({mode}) failed under {v}: {p.stderr[-3000:]}")
         return v, json.loads(opath.read_text())
@@ -80,7 +80,7 @@ def run_mode(mode: str, ppath, bpath, tag: str, versions=None, shards: int = 4, 
 
 
 def explore(ctx, mode: str, n_random_quick: int, n_random_thorough: int, seed_off: int = 0, targets: bool = False,
-            families: bool = True, accept=None, quick_stride: int = 1):
+            families: bool = True, accept=None, quick_stride: int = 1, thorough_stride: int = 1):
     """common body of the M7 checks: enumerate, let TLC find every path, replay in `mode` on all interpreters.
     `accept(mismatch) -> bool`: which mismatches belong to the property being checked."""
     n = n_random_quick if ctx.tier == "quick" else n_random_thorough
@@ -88,9 +88,9 @@ def explore(ctx, mode: str, n_random_quick: int, n_random_thorough: int, seed_of
     ps, bs, pp, bp = programs_and_behaviours(ctx, n, ctx.seed + seed_off, tag, families=families, targets=targets)
     ctx.note("programs", len(ps))
     ctx.note("behaviours_from_tlc", len(bs))
-    stride = quick_stride if ctx.tier == "quick" else 1
+    stride = quick_stride if ctx.tier == "quick" else thorough_stride
     ctx.note("behaviour_stride", stride)
-    out = run_mode(mode, pp, bp, tag, shards=4, stride=stride)
+    out = run_mode(mode, pp, bp, tag, shards=4, stride=stride, seed_offset=ctx.seed, timeout=3000)
     ctx.note("interpreters", sorted(out))
     per = {}
     for v, o in sorted(out.items()):
